@@ -43,7 +43,7 @@ def build(ctx, name, tag, category=None, **override):
     return Msg(name, parts, total, ref, category, label, n, spec)
 
 
-def flatten_parts(ctx, parts_list):
+def flatten_parts(ctx, parts_list, **opts):
     """
     A list of parts (bytes, ('val', term, n), ('lazy', label, n), source handles standing for the first n bits they
     were consumed for, given as (handle, n)) -> input object for the decoder (SymBytes in explore, bytes in replay).
@@ -67,6 +67,8 @@ def flatten_parts(ctx, parts_list):
                     raise TypeError(q)
             if st.length % 8:
                 raise ValueError('stream is not a whole number of octets')
+            if opts:
+                st.opts = dict(opts)    # e.g. string_alphabet: character reads fork over a finite alphabet
             return SymBytes(st)
     conc = []
     for q in parts_list:
